@@ -3,7 +3,7 @@ streams (harness arguments per tier) and the classification of each case."""
 
 # Which repairs of the pinned tree the model follows (must match the fix: commits in /repo;
 # known_findings.json records them as `fixed`).
-FIXES = {"f1": True, "f2": True, "f3": True, "f4": True, "f5": True, "f2b": True, "f8": True, "f10": True, "f14": True}
+FIXES = {"f1": True, "f2": True, "f3": True, "f4": True, "f5": True, "f2b": True, "f8": True, "f10": True, "f14": True, "f12": True}
 
 
 def pflags(extra):
@@ -332,6 +332,119 @@ def c07_streams(tier, seed):
             (["conn3", str(seed + 3), "20" if q else "500"], c, {"avx2": True})]
 
 
+def _close_val(v):
+    try:
+        return int(v.split("@")[0])
+    except ValueError:
+        return None
+
+
+def train_classifier(prop):
+    def classify(line, impl, mobs, extra):
+        flags = pflags(extra)
+        t = line.split()
+        sub = t[1].rsplit(".", 1)[-1] if "." in t[1] else "?"
+        verb = t[2]
+        tags = ["verb=" + verb, "case=" + sub, "impl=" + impl.split()[0]]
+        for k in ("K", "EMPTYCLASS", "STAR", "SLASH", "ZERO"):
+            if k in flags:
+                tags.append(f"{k}={flags[k]}")
+        info = {"tags": tags, "nontrivial": impl.startswith("ok") and flags.get("ZERO") != "1"}
+        if impl.split()[0] == "panic":
+            info["prop_fail"] = "trainer-panic"
+            info["why"] = "generating files from a trained model panicked"
+            return info
+        if verb != "GEN":
+            return info
+        if prop == "C14":
+            if flags.get("COMPILES") == "0":
+                info["prop_fail"] = "emitted-files-do-not-compile"
+                info["why"] = "the files emitted by write_dictionary are rejected by SystemDictionaryBuilder::from_readers"
+            if "USERC" in flags:
+                # diagnostic only: rows with explicit parameters are copied unchanged (as the property says), so their
+                # ids need not exist in the newly emitted connector
+                tags.append("userc=" + flags["USERC"])
+        elif prop == "C15":
+            if flags.get("RT") == "0":
+                if sub in ("c", "d"):
+                    # image written after read_user_lexicon: user entries are not part of write_model
+                    info["prop_fail"] = "user-entries-not-persisted"
+                    info["why"] = "a model written after read_user_lexicon does not carry the user entries (user.csv differs after reload)"
+                else:
+                    info["prop_fail"] = "reload-generates-different-files"
+                    info["why"] = "files generated from the reloaded model differ from those of the in-memory model (or generation is not deterministic)"
+        elif prop == "C16":
+            k = int(flags.get("K", "0"))
+            bad = None
+            for key in ("CLOSE", "CLOSED"):
+                v = flags.get(key)
+                if v in (None, "na"):
+                    continue
+                if v == "buildpanic":
+                    bad = key + "=buildpanic"
+                    continue
+                d = _close_val(v)
+                if d is not None and d > k + 1:
+                    bad = f"{key}={v} K={k}"
+            if flags.get("BIG") == "0":
+                bad = (bad or "") + " BIG=0"
+            if flags.get("DIMS") == "0":
+                bad = (bad or "") + " DIMS=0"
+            if bad:
+                if flags.get("EMPTYCLASS") == "1":
+                    info["prop_fail"] = "empty-class-row-read-as-bos-eos"
+                elif flags.get("STAR") == "1":
+                    info["prop_fail"] = "feature-string-star-collides-with-none-marker"
+                elif flags.get("SLASH") == "1":
+                    info["prop_fail"] = "feature-value-with-slash-breaks-bigram-cost"
+                elif flags.get("ZERO") == "1":
+                    info["prop_fail"] = "all-zero-model-scale"
+                else:
+                    info["prop_fail"] = "bigram-vs-matrix-beyond-K+1"
+                info["why"] = "connection cost from the bigram files differs from matrix.def by more than K+1 (or the bigram files do not compile): " + bad
+        return info
+    return classify
+
+
+def train_streams(prop, nq, nt):
+    def streams(tier, seed):
+        n = nq if tier == "quick" else nt
+        return [(["train", "full", str(seed), str(n)], train_classifier(prop))]
+    return streams
+
+
+def extract_classifier(kinds):
+    def classify(line, impl, mobs, extra):
+        flags = pflags(extra)
+        kind = flags.get("KIND", "?")
+        tags = ["kind=" + kind, "impl=" + impl.split()[0]]
+        if "FLAGS" in flags and flags["FLAGS"] != "none":
+            tags += ["flag=" + f for f in flags["FLAGS"].split(",")]
+        info = {"tags": tags, "nontrivial": kind in kinds and impl.split()[0] in ("ok", "some")}
+        if kind == "mecab":
+            fl = flags.get("FLAGS", "")
+            if impl.startswith("ok") and any(x in fl for x in ("GAP", "ZERO_NOT_BOS", "BADSEP", "NOZERO")):
+                info["prop_fail"] = "mecab-malformed-accepted"
+                info["why"] = "generate_bigram_info accepted an id table with a gap / malformed line / id 0 not BOS/EOS: " + fl
+            if impl.split()[0] == "panic":
+                info["prop_fail"] = "mecab-panic"
+                info["why"] = "generate_bigram_info panicked"
+        return info
+    return classify
+
+
+def extract_streams(kinds, nq, nt):
+    def streams(tier, seed):
+        n = nq if tier == "quick" else nt
+        return [(["extract", str(seed), str(n)], extract_classifier(kinds))]
+    return streams
+
+
+TRAINER_TB = ["rucrf 0.3.3 RawModel::merge ported (Model/Trainer.lean); CRF optimisation itself not modelled (theorems quantify over arbitrary raw models)",
+              "IEEE-754 f64 arithmetic: the driver uses Lean Float (same operations in the same order), theorems are proved for an abstract weight structure / exact arithmetic; Float laws trusted",
+              "bincode wire format of ModelData modelled; hashbrown iteration order = stored order of the image (theorems quantify over permutations)"]
+
+
 def simple_streams(name, nq, nt, classify):
     def streams(tier, seed):
         n = nq if tier == "quick" else nt
@@ -391,6 +504,74 @@ LATTICE_TB = [
 ]
 
 PROPS = {
+    "C14": {
+        "modules": ["Vibrato.Props.C14"],
+        "theorems": ["Vibrato.C14.write_dictionary_ok", "Vibrato.C14.write_dictionary_panics", "Vibrato.C14.lex_rows",
+                     "Vibrato.C14.lex_rows_parse", "Vibrato.C14.unk_rows", "Vibrato.C14.unk_rows_grouped",
+                     "Vibrato.C14.unk_rows_parse", "Vibrato.C14.ids_in_dims", "Vibrato.C14.matrix_rows_sorted",
+                     "Vibrato.C14.user_policy", "Vibrato.C14.cost_is_truncation", "Vibrato.C14.cost_fits_i16",
+                     "Vibrato.C14.cost_antitone", "Vibrato.C14.emitted_compiles_partial"],
+        "streams": train_streams("C14", 40, 2000),
+        "rule": "tiny training set-ups (3-8 lexicon rows with homographs and quoted surfaces, generated char.def/unk.def, feature.def "
+                "with 1-4 unigram and 1-12 bigram templates incl. ? forms and %t, a few rewrite rules, <= 10 sentences) trained with "
+                "the real rucrf; per model 4 generate cases (reloaded image, with/without user lexicon, image written after "
+                "read_user_lexicon) + 1 re-encoding; all seven emitted files compared byte for byte with the Lean model",
+        "trusted_base": TRAINER_TB,
+        "assumptions": ["emitted_compiles is proved for lex.csv read-back + id ranges (partial: matrix.def/char.def text parsers go through String.fromUTF8?)"],
+    },
+    "C15": {
+        "modules": ["Vibrato.Props.C15"],
+        "theorems": ["Vibrato.C15.model_decode_encode", "Vibrato.C15.reread_equal", "Vibrato.C15.truncated_is_err",
+                     "Vibrato.C15.reload_state", "Vibrato.C15.cache_invariant", "Vibrato.C15.cache_invariant_run",
+                     "Vibrato.C15.files_cache_irrelevant", "Vibrato.C15.generation_deterministic",
+                     "Vibrato.C15.reload_generates_same", "Vibrato.C15.generate_respects_equiv",
+                     "Vibrato.C15.user_lexicon_respects_equiv", "Vibrato.C15.generate_after_user_respects_equiv",
+                     "Vibrato.C15.reloaded_user_file_empty"],
+        "streams": train_streams("C15", 40, 1000),
+        "rule": "same set-ups as C14; histories generate, generate, write_model, read_model, generate, read_user_lexicon, generate, "
+                "write_model again; the model image is decoded and re-encoded byte-exactly by the Lean model",
+        "trusted_base": TRAINER_TB,
+        "assumptions": ["user_entries are not part of write_model (known finding): histories of the property add the user lexicon after the last reload"],
+    },
+    "C16": {
+        "modules": ["Vibrato.Props.C16"],
+        "theorems": ["Vibrato.C16.trunc_sum_bound", "Vibrato.C16.entry_close", "Vibrato.C16.bigram_matrix_close",
+                     "Vibrato.C16.bigram_matrix_close_eos", "Vibrato.C16.bigram_matrix_close_bos", "Vibrato.C16.dims_agree"],
+        "streams": train_streams("C16", 40, 2000),
+        "rule": "same set-ups as C14; the emitted bigram files are compiled with the raw and the dual connector and every cost is "
+                "compared with the matrix dictionary compiled from the emitted matrix.def; measured max difference vs K+1",
+        "trusted_base": TRAINER_TB,
+        "assumptions": ["exact arithmetic in the theorem; float slack < 1 unit assumed and measured (CLOSE flag)",
+                        "hypotheses of the theorem: weight_abs_max > 0 and EPS*32767 <= weight_abs_max (the EPSILON cut)"],
+    },
+    "C18": {
+        "modules": ["Vibrato.Props.C18"],
+        "theorems": ["Vibrato.Props.C18.expand_spec", "Vibrato.Props.C18.template_reading_exists",
+                     "Vibrato.Props.C18.template_reading_unique", "Vibrato.Props.C18.optional_none_iff",
+                     "Vibrato.Props.C18.expand_parsed_ne_panic", "Vibrato.Props.C18.intern_injective",
+                     "Vibrato.Props.C18.ids_equal_iff_strings_equal", "Vibrato.Props.C18.history_ids",
+                     "Vibrato.Props.C18.id_tuples_eq_iff", "Vibrato.Props.C18.classes_spec",
+                     "Vibrato.Props.C18.tuple_listed", "Vibrato.Props.C18.classTable_first_appearance"],
+        "streams": extract_streams(("expand", "session", "featset", "featcfg"), 1500, 50000),
+        "rule": "random template sets (placeholders %F[i] %F?[i] %t %L %R incl. malformed and adjacent forms) x feature rows "
+                "(quoted cells, short rows) through FeatureExtractor (hook), whole extraction sessions with interning, "
+                "feature.def parsing, extract_feature_set with rewriters; non-trivial = a feature string / id list was produced",
+        "trusted_base": ["the three regexes replaced by hand-written scanners in the model (validated differentially)"] + TRAINER_TB[:1],
+        "assumptions": ["classes_spec / tuple_listed are stated over the abstract first-appearance numbering (classesOf); the file-level statement is covered by the trainer model's differential run (C14/C16 streams)"],
+    },
+    "C20": {
+        "modules": ["Vibrato.Props.C20", "Vibrato.Proofs.MecabBridge"],
+        "theorems": ["Vibrato.Props.C20.mecab_cost_eq_sum", "Vibrato.Props.C20.ids_dense_increasing",
+                     "Vibrato.Props.C20.gap_rejected", "Vibrato.Props.C20.gap_rejected_fixed",
+                     "Vibrato.Props.C20.malformed_rejected", "Vibrato.Props.C20.zero_not_bos_rejected",
+                     "Vibrato.Props.C20.f12_largest_id_dropped", "Vibrato.Props.C20.f12_fixed_rejects"],
+        "streams": extract_streams(("mecab",), 1500, 30000),
+        "rule": "random MeCab model descriptions: feature.def with optional %L?/%R? references, id tables (gaps, id 0 missing or not "
+                "BOS/EOS, bad separators, invalid UTF-8), model.def with positive/negative/zero/unmatched weights and extreme "
+                "cost factors; the three generated files compared byte for byte with the model",
+        "trusted_base": ["decimal-to-f64 conversion of str::parse::<f64> modelled by an exact correctly rounded conversion (validated against Rust)"] + TRAINER_TB[1:2],
+        "assumptions": ["the text round trip from the rendered files into the raw connector's parser is not proved (stated in Props/C20.lean); the connector side is C07"],
+    },
     "C07": {
         "modules": ["Vibrato.Props.C07"],
         "theorems": ["Vibrato.C07.find_base_terminates", "Vibrato.C07.build_slot_invariant", "Vibrato.C07.retrieve_build",
